@@ -400,6 +400,18 @@ def generate(rng, tier, index):
         faults.append({"seam": seam, "at": rng.randint(0, 3),
                        "kind": "%s-foreign-%s" % (
                            seam, rng.choice(sorted(simdt.FOREIGN)))})
+    if not realfs and rng.random() < 0.012:
+        # the text sits at the end of a long chain of resources, each of
+        # which does nothing but %include the next one (far deeper than any
+        # real layout: the interpreter's recursion limit is within reach)
+        n = rng.choice([120, 190, 200, 230, 300, 600])
+        names = [urllib.parse.urljoin(top, "zzdeep%d.conf" % k)
+                 for k in range(1, n + 1)]
+        if not any(u in store for u in names):
+            store[names[-1]] = store[top]
+            for a_, b_ in zip([top] + names[:-1], names):
+                store[a_] = "%include " + b_.rsplit("/", 1)[-1] + "\n"
+            labels.append("deep-include-chain")
     entry = rng.choice(["url", "url", "path", "file", "file-nourl"])
     if entry == "path" and not top.startswith("file:///sim/"):
         entry = "url"
